@@ -11,6 +11,7 @@ from vlib import sh, log
 CANON = re.compile(r"^[0-9a-f]{16}-[0-9a-f]{16}$")
 PFADD_HEX = "7066616464"
 F1_SIG = "local snapshot copy overwrites hard-linked sst files in place"
+RS_SIG = "a snapshot already transferred from another source is taken for the requested one"
 H_SIG = "a directory left half written by a crash inside backup / transfer / restore is used"
 K1R_SIG = "engine.rockEngCheckpoint.Save releases the apply loop by a 20ms timer; RocksDB fixes the WAL length only after listing the data directory (>= 100000 files there)"
 K1_SIG = "checkpoint of index i contains writes applied after the apply loop was released"
@@ -256,6 +257,20 @@ def oracle(cases, order, impl, skeleton):
                         if ssts:
                             stats["reuse_linked"] = stats.get("reuse_linked", 0) + 1
                             nontrivial.add(vlib.case_hash("\t".join(c)))
+        elif kind == "RS":
+            stats["two_source_scenarios"] = stats.get("two_source_scenarios", 0) + 1
+            if out != "fromA=ok/ok:A repeatA=ok/ok:A fromB=ok/ok:B":
+                fails.append(dict(name="sources-" + cid, base=cid, signature=RS_SIG,
+                                  what="two remote sources with a snapshot of the same (term,index) (%s): after transfer + apply the store must hold "
+                                       "that source's content: %s" % (c[1], out[:200])))
+            nontrivial.add(vlib.case_hash("\t".join(c)))
+        elif kind == "MS":
+            stats["size_class_cases"] = stats.get("size_class_cases", 0) + 1
+            if out != "backup=ok restore=ok:exact again=ok:exact":
+                fails.append(dict(name="size-" + cid, base=cid,
+                                  what="checkpoint of about %s KB (values of %s KB) on %s: backup / restore did not bring back the content of the backup instant: %s"
+                                       % (c[2], c[3], c[1], out[:200])))
+            nontrivial.add(vlib.case_hash("\t".join(c)))
         elif kind == "FF":
             stats["failed_transfers"] = stats.get("failed_transfers", 0) + 1
             m = re.match(r"^first=(\S+) half=(\S+) second=(\S+) restore=(\S+)$", out)
@@ -266,17 +281,21 @@ def oracle(cases, order, impl, skeleton):
                                   what="a snapshot transfer whose copy failed midway (%s): the half directory passed for a backup or the retry "
                                        "did not end with the source's content: %s" % (c[1], out[:200])))
             nontrivial.add(vlib.case_hash("\t".join(c)))
-        elif kind in ("CB", "CR", "CF"):
+        elif kind in ("CB", "CR", "CF", "CRR"):
             stats["crash_cases"] = stats.get("crash_cases", 0) + 1
             good = {"CB": ("killed checkpoint-refused", "killed checkpoint-restores-exactly", "checkpoint-refused-or-exact"),
                     "CR": ("killed open=restored restart-restores-exactly checkpoint-unchanged",
                            "killed open=pre-restore restart-restores-exactly checkpoint-unchanged",
                            "open=complete restart-restores-exactly checkpoint-unchanged"),
-                    "CF": ("restores-exactly",)}[kind]
+                    "CF": ("restores-exactly",)}
+            good["CRR"] = good["CR"]
+            good = good[kind]
             if out not in good:
                 what = {"CB": "a process killed inside a backup (%s, %s) left a checkpoint that is neither refused nor exact: %s",
                         "CR": "a process killed inside a restore (%s, %s): after the restart the store is not all-old/all-new, "
                               "or does not end with the checkpoint's content, or the checkpoint changed: %s",
+                        "CRR": "a process killed inside RestoreFromRemoteBackup (%s, %s) while a local checkpoint of the same name exists: after the "
+                               "restart the store is not all-old/all-remote-snapshot, or does not end with the remote snapshot's content: %s",
                         "CF": "a process killed inside a snapshot transfer (%s, %s): the half directory was accepted or the retry restored other content: %s"}[kind]
                 fails.append(dict(name="crash-" + cid, base=cid, signature=H_SIG, what=what % (c[1], c[2], out)))
             nontrivial.add(vlib.case_hash("\t".join(c)))
@@ -408,15 +427,22 @@ def oracle(cases, order, impl, skeleton):
                 else:
                     bad("copying a checkpoint failed: " + res)
             elif op == "V":
+                # ProposeOp_TransferRemoteSnap on the other store, this store being the source
                 if res == "ok":
-                    if name in rec[s]:
+                    if name in rdgs[o] and name in rrec[o]:
+                        pass        # already transferred completely from the same source: nothing is fetched
+                    elif name in rec[s]:
                         rrec[o][name] = rec[s][name]
-                    rdgs[o].pop(name, None)
-                elif res == "nosrc":
+                        rdgs[o].pop(name, None)
+                    else:
+                        bad("a snapshot transfer succeeded although the source does not hold the checkpoint")
+                elif res == "err":
+                    if name in rec[s] and not (name in rdgs[o]):
+                        bad("a snapshot transfer failed although the source holds the checkpoint")
                     rrec[o].pop(name, None)
                     rdgs[o].pop(name, None)
                 else:
-                    bad("copying a checkpoint to the remote directory failed: " + res)
+                    bad("snapshot transfer to the remote directory: " + res)
             elif op == "M":
                 if res == "ok":
                     stats["restores_remote"] = stats.get("restores_remote", 0) + 1
@@ -629,6 +655,16 @@ def run(ctx):
     for sub, a, rf in runs:
         d, err = run_impl(ctx, sub, a, rf)
         if d is None:
+            # the harness process died (an abort inside cgo, a fatal runtime error): when it was in the middle of
+            # a case, that case is the failing input; otherwise it is an infrastructure problem
+            dd = os.path.join(ctx.run_dir, sub)
+            sk = read_skeleton(os.path.join(dd, "current.tsv"))
+            if sk:
+                last = list(sk)[-1]
+                ctx.report_violation("crash-" + last, dict(case=dict(cases_tsv=sk[last], what="harness process died"), kind="failing-input"),
+                                     what="the process running the real code died while executing this case (checkpoint / restore / open): " + err[-400:])
+                ctx.finish(dict(traces_validated_against_impl=0, evaluations=0, distinct_nontrivial=0,
+                                rule="harness process died", histogram={}, mismatches=0, samples=[]))
             log("HARNESS RUN FAILED (%s):\n%s" % (sub, err[-3000:]))
             raise SystemExit(2)
         mism, cnt = vlib.diff_outputs(os.path.join(d, "impl.out"), os.path.join(d, "model.out"))
@@ -652,7 +688,7 @@ def run(ctx):
             byk = {}
             for cid in order:
                 byk.setdefault(cases[cid][0], cid)
-            for kd in ("P", "F", "TO", "L", "G", "H", "E", "I", "FF", "CB", "CR", "CF", "K"):
+            for kd in ("P", "F", "TO", "L", "G", "H", "E", "I", "RS", "MS", "FF", "CB", "CR", "CRR", "CF", "K"):
                 if kd in byk:
                     cid = byk[kd]
                     samples.append(dict(case=[x[:160] for x in cases[cid]], impl=(impl.get(cid) or "")[:300]))
@@ -684,6 +720,9 @@ def run(ctx):
              "G: node.GetValidBackupInfo against one HTTP stub per peer (same host / other host, own data root, refusing, unreachable; the stub rejects "
              "any request that is not the checkbackup of exactly the requested snapshot); H: node.handleReuseOldCheckpoint on crafted backup directories "
              "(source_node_info per checkpoint, shared hard links, the new directory present or not, from the same or another source); "
+             "RS: two source stores with a checkpoint of the same (term,index) and different content, ProposeOp_TransferRemoteSnap + ProposeOp_ApplyRemoteSnap "
+             "(real custom raft requests through ApplyRaftRequest) from one, repeated after its checkpoint is gone, then from the other; "
+             "MS: checkpoint size classes just below / above 1 MiB and a few MiB with values of 60-260 KB; CRR: kills inside RestoreFromRemoteBackup while a local checkpoint of the same name exists; "
              "FF: a transfer through PrepareSnapshot whose cp fails midway (a cp wrapper on PATH with a 64 KB file size limit), process alive, then retry and restore; "
              "CB/CR/CF: a child process is killed (SIGKILL, with its cp child) inside a backup, a restore, a snapshot transfer — at each named crash point "
              "of rockredis.go and at random moments — and the store is restarted the way node/raft.go does; "
